@@ -389,4 +389,155 @@ Proof.
     apply (IH (sel (nxt s) cur) s pos I); [|lia].
     apply ord_advance; [exact I|exact O|lia|]. intros Hlt. lia.
 Qed.
+
+(* ------------------------------------------------------------------ termination within the fuel *)
+Definition cnt (pos : Z -> Z) (cur : Z) : nat :=
+  length (filter (fun x => pos cur <=? pos x) (zrange (2 * S))).
+
+Lemma filter_length_lt {A} (P P' : A -> bool) (l : list A) a :
+  (forall x, P' x = true -> P x = true) -> In a l -> P a = true -> P' a = false ->
+  (length (filter P' l) < length (filter P l))%nat.
+Proof.
+  intros Himp. induction l as [|b l IH]; intros Hin Pa P'a; [destruct Hin|].
+  assert (Le : forall l0, (length (filter P' l0) <= length (filter P l0))%nat).
+  { induction l0 as [|c l0 IH0]; cbn [filter length]; [lia|].
+    destruct (P' c) eqn:E1; [rewrite (Himp c E1); cbn [length]; lia|]. destruct (P c); cbn [length]; lia. }
+  cbn [filter]. destruct Hin as [->|Hin].
+  - rewrite Pa, P'a. cbn [length]. specialize (Le l). lia.
+  - specialize (IH Hin Pa P'a). destruct (P' b) eqn:E1; [rewrite (Himp b E1); cbn [length]; lia|].
+    destruct (P b); cbn [length]; lia.
+Qed.
+
+Lemma cnt_ext pos pos' cur : (forall x, 0 <= x < 2 * S -> (pos' cur <= pos' x <-> pos cur <= pos x)) ->
+  cnt pos' cur = cnt pos cur.
+Proof.
+  intros H. unfold cnt. f_equal. apply filter_ext_in. intros x Hx. apply in_zrange in Hx.
+  specialize (H x Hx). destruct (pos' cur <=? pos' x) eqn:A; destruct (pos cur <=? pos x) eqn:B; try reflexivity; lia.
+Qed.
+
+Lemma cnt_step pos cur c' : 0 <= cur < 2 * S -> pos cur < pos c' -> (cnt pos c' < cnt pos cur)%nat.
+Proof.
+  intros Hcur Hlt. unfold cnt. apply filter_length_lt with (a := cur).
+  - intros x Hx. lia.
+  - apply in_zrange. exact Hcur.
+  - lia.
+  - lia.
+Qed.
+
+Lemma cnt_le pos cur : (cnt pos cur <= Z.to_nat (2 * S))%nat.
+Proof.
+  unfold cnt. assert (Q : forall (P : Z -> bool) l, (length (filter P l) <= length l)%nat).
+  { intros P l. induction l as [|a l IH]; cbn [filter length]; [lia|]. destruct (P a); cbn [length]; lia. }
+  etransitivity; [apply Q|]. unfold zrange. rewrite length_zseq. lia.
+Qed.
+
+(* fuel sufficiency: the number of nodes not before [cur] bounds the remaining iterations *)
+Theorem loop_fuel (Hall : Forall (stride_ok g) strides) : forall fuel cur s pos,
+  Inv g K strides v0 s -> Ord g strides s cur pos -> -1 <= cur < 2 * S ->
+  (1 <= fuel)%nat -> (cur <> -1 -> (cnt pos cur < fuel)%nat) ->
+  loop fuel S strides cur s <> OutOfFuel.
+Proof.
+  induction fuel as [|f IH]; intros cur s pos I O Hcur Hf Hc; [lia|]. cbn [loop].
+  destruct (cur =? -1) eqn:E0; [discriminate|].
+  specialize (Hc ltac:(lia)).
+  assert (Step : forall s1 pos1, Inv g K strides v0 s1 -> Ord g strides s1 cur pos1 ->
+            cnt pos1 cur = cnt pos cur ->
+            (cur < S -> interior_b g cur = true -> closed_at g strides s1 cur) ->
+            loop f S strides (sel (nxt s1) cur) s1 <> OutOfFuel).
+  { intros s1 pos1 I1 O1 Ec Hcl.
+    assert (B := i_nb _ _ _ _ _ I1 cur ltac:(lia)).
+    assert (O1' := ord_advance s1 cur pos1 I1 O1 ltac:(lia) Hcl).
+    destruct (Z.eq_dec (sel (nxt s1) cur) (-1)) as [Em|Nm].
+    - assert (1 <= cnt pos1 cur)%nat.
+      { unfold cnt. assert (Q := filter_length_lt (fun x => pos1 cur <=? pos1 x) (fun _ => false) (zrange (2 * S)) cur
+          ltac:(intros; discriminate) ltac:(apply in_zrange; lia) ltac:(lia) eq_refl). lia. }
+      apply (IH _ s1 pos1 I1 O1'); [lia|lia|]. intros N. contradiction.
+    - assert (L := o_nx _ _ _ _ _ O1 cur ltac:(lia) Nm).
+      assert (Q := cnt_step pos1 cur _ ltac:(lia) L).
+      apply (IH _ s1 pos1 I1 O1'); [lia|lia|]. intros _. lia. }
+  destruct (cur <? S) eqn:E1.
+  - rewrite (rd_ok _ _ cur (i_rv _ _ _ _ _ I)) by lia. cbn [bind].
+    destruct (sel (vals s) cur =? 0) eqn:E2; [discriminate|].
+    assert (Hint : interior_b g cur = true).
+    { destruct (interior_b g cur) eqn:Eb; [reflexivity|].
+      destruct (i_pad _ _ _ _ _ I cur ltac:(lia) Eb) as [Z0 _]. lia. }
+    assert (Vc := i_vk _ _ _ _ _ I cur ltac:(lia)).
+    destruct (relax_all_ord Hall strides (fun sd H => H) s cur (sel (vals s) cur) pos [] I O ltac:(lia) Hint eq_refl ltac:(lia)
+                ltac:(intros sd []))
+      as (s1 & pos1 & R1 & I1 & O1 & V1 & D1 & C1 & Cl1).
+    rewrite R1. cbn [bind].
+    rewrite (rd_ok _ _ cur (i_rn _ _ _ _ _ I1)) by lia. cbn [bind].
+    apply (Step s1 pos1 I1 O1 (cnt_ext pos pos1 cur C1)).
+    intros _ _ sd Hsd. rewrite V1. apply Cl1. exact Hsd.
+  - rewrite (rd_ok _ _ cur (i_rn _ _ _ _ _ I)) by lia. cbn [bind].
+    apply (Step s pos I O eq_refl). intros Hlt. lia.
+Qed.
+
+(* total correctness of the loop in flat/rank space, given both invariants at the start: with the
+   fuel the model uses (2S+1) the loop RETURNS, memory-safely, nothing dropped, and its result is
+   between the initial image plane and the mask plane (Inv), below every post-fixed image (Inv) and
+   closed under the dilate-and-clip step along every stride *)
+Theorem loop_total (Hall : Forall (stride_ok g) strides) cur s pos :
+  Inv g K strides v0 s -> Ord g strides s cur pos -> -1 <= cur < 2 * S ->
+  exists s', loop (Datatypes.S (Z.to_nat (2 * S))) S strides cur s = Ok s' /\
+    Inv g K strides v0 s' /\ drops s' = drops s /\
+    forall p, 0 <= p < S -> interior_b g p = true -> closed_at g strides s' p.
+Proof.
+  intros I O Hcur.
+  assert (A := loop_safe g K v0 strides G Hall (Datatypes.S (Z.to_nat (2 * S))) cur s I Hcur).
+  assert (B := loop_fuel Hall (Datatypes.S (Z.to_nat (2 * S))) cur s pos I O Hcur ltac:(lia)
+                 ltac:(intros _; assert (Q := cnt_le pos cur); lia)).
+  assert (C := loop_closed Hall (Datatypes.S (Z.to_nat (2 * S))) cur s pos I O Hcur).
+  destruct (loop (Datatypes.S (Z.to_nat (2 * S))) S strides cur s) as [s'| | |]; try contradiction.
+  exists s'. destruct A as [A1 A2]. split; [reflexivity|]. split; [exact A1|]. split; [exact A2|exact C].
+Qed.
 End Order.
+
+(* ------------------------------------------------------------------ the boolean Ord checker *)
+Theorem ord_check_sound g strides s cur posa :
+  ord_check g strides s cur posa = true -> Ord g strides s cur (sel posa).
+Proof.
+  unfold ord_check. cbv zeta. set (pos := sel posa). set (n := 2 * gS g). intros Hc.
+  apply andb_prop in Hc; destruct Hc as [F1 F2]. rewrite forallb_forall in F1, F2.
+  assert (P1 : forall x, 0 <= x < n ->
+     (sel (nxt s) x <> -1 -> pos x < pos (sel (nxt s) x)) /\
+     (x < n - 1 -> pos x < pos (n - 1)) /\
+     (sel (prv s) x <> -1 -> sel (nxt s) (sel (prv s) x) = x) /\
+     (sel (nxt s) x <> -1 -> sel (prv s) (sel (nxt s) x) = x) /\
+     forall y, 0 <= y < n ->
+       (pos x = pos y -> x = y) /\
+       (sel (nxt s) x <> -1 -> ~ (pos x < pos y < pos (sel (nxt s) x))) /\
+       (pos x < pos y -> sel (vals s) y <= sel (vals s) x)).
+  { intros x Hx. specialize (F1 x (proj2 (in_zrange x n) Hx)).
+    apply andb_prop in F1; destruct F1 as [F1 Fy].
+    split; [lia|]. split; [lia|]. split; [lia|]. split; [lia|].
+    intros y Hy. rewrite forallb_forall in Fy. specialize (Fy y (proj2 (in_zrange y n) Hy)). lia. }
+  constructor.
+  - intros x y Hx Hy. apply (P1 x Hx); exact Hy.
+  - intros x Hx. apply (P1 x Hx).
+  - intros x y Hx Hy. apply (P1 x Hx); exact Hy.
+  - intros x Hx. apply (P1 x ltac:(unfold n; lia)). unfold n. lia.
+  - intros x y Hx Hy. apply (P1 x Hx); exact Hy.
+  - intros x Hx. apply (P1 x Hx).
+  - intros x Hx. apply (P1 x Hx).
+  - intros p Hp Hpi Hd sd Hsd. specialize (F2 p (proj2 (in_zrange p _) Hp)).
+    rewrite Hpi in F2. cbn [negb orb] in F2.
+    destruct ((cur =? -1) || (pos p <? pos cur)) eqn:E; [|lia]. cbn [negb orb] in F2.
+    rewrite forallb_forall in F2. specialize (F2 sd Hsd). lia.
+Qed.
+
+Definition prep_values_of (image mask : list (list Z)) (fp : list (list bool)) : list Z :=
+  let H := zlen image in let W := width image in
+  let p0 := zlen fp / 2 in let p1 := width fp / 2 in
+  padded_plane H W p0 p1 (img_min image) image ++ padded_plane H W p0 p1 (img_min image) mask.
+Definition vorder_of (values : list Z) : list Z :=
+  map snd (Base.ReconSort.DescSort.sort (combine values (zrange (zlen values)))).
+
+(* the hypotheses of loop_closed / loop_fuel / loop_total are satisfiable: the set-up state of a
+   concrete instance passes inv_check and ord_check with pos = index in the lexsort order *)
+Example ord_check_example :
+  let p := prepare ex_seed ex_mask ex_fp in
+  inv_check (prep_geom p) (p_K p) (p_st p) = true /\
+  ord_check (prep_geom p) (p_strides p) (p_st p) (p_cur p)
+            (order_pos (vorder_of (prep_values_of ex_seed ex_mask ex_fp))) = true.
+Proof. vm_compute. split; reflexivity. Qed.
